@@ -61,6 +61,16 @@ fn wait_connectable(addr: &str) -> bool {
     false
 }
 
+fn try_spawn_service(addr: &str, iface: &str) -> Option<Proc> {
+    let c = Command::new(svc_exe()).args(["serve", "--address", addr, "--iface", iface, "--idle", "60"]).stdin(Stdio::null()).stdout(Stdio::null()).stderr(Stdio::null()).spawn().unwrap_or_else(|e| machinery(&format!("cannot spawn verif-svc: {}", e)));
+    let p = Proc::new(c);
+    if wait_connectable(addr) {
+        Some(p)
+    } else {
+        None
+    }
+}
+
 fn spawn_service(addr: &str, iface: &str) -> Proc {
     let c = Command::new(svc_exe()).args(["serve", "--address", addr, "--iface", iface, "--idle", "60"]).stdin(Stdio::null()).stdout(Stdio::null()).stderr(Stdio::null()).spawn().unwrap_or_else(|e| machinery(&format!("cannot spawn verif-svc: {}", e)));
     let p = Proc::new(c);
@@ -171,7 +181,7 @@ fn free_tcp_port() -> u16 {
 }
 
 fn c16(args: &Args) -> ! {
-    let mut rep = Report::new("C16", "configuration matrix, one OS schedule per case: (1) transports {unix path, unix path;mode=0600, unix:@abstract, tcp:127.0.0.1:port, with_activate(service), with_bridge(service --stdio)} x every sequence of client operations of length<=2 (thorough 3) over {GetInfo, Echo, Fail, Stream+drain, oneway Echo, unknown interface} through the real client API in a capped subprocess, results compared with an in-memory run of the same operations against the same interface; (2) activation contract read back from the spawned service (descriptor 3 listening unix socket, LISTEN_FDS/LISTEN_FDNAMES/LISTEN_PID/VARLINK_ADDRESS) with the parent's lowest free descriptor {3, >3}; (3) server side: LISTEN_FDS x LISTEN_PID x LISTEN_FDNAMES x address scheme (576 cases) against the sd_listen_fds reference; (4) address strings scheme x tail: client and server agree on InvalidAddress; non-trivial = distinct (part, configuration, sequence)");
+    let mut rep = Report::new("C16", "configuration matrix, one OS schedule per case: (1) transports {unix path, unix path;mode=0600, unix:@abstract, tcp:127.0.0.1:port, with_activate(service), with_bridge(service --stdio)} x every sequence of client operations of length<=2 (thorough 3) over {GetInfo, Echo, Fail, Stream+drain, oneway Echo, unknown interface} through the real client API in a capped subprocess, results compared with an in-memory run of the same operations against the same interface; (2) activation contract read back from the spawned service (descriptor 3 listening unix socket, LISTEN_FDS/LISTEN_FDNAMES/LISTEN_PID/VARLINK_ADDRESS) with the parent's lowest free descriptor {3, >3}; (1b) both filesystem socket paths carry a stale socket file when the server starts; (3) server side: LISTEN_FDS x LISTEN_PID x LISTEN_FDNAMES x address scheme (576 cases, all in both tiers) against the sd_listen_fds reference; (4) address strings scheme x tail: client and server agree on InvalidAddress; non-trivial = distinct (part, configuration, sequence)");
     let dir = tempfile::Builder::new().prefix("px16").tempdir_in("/dev/shm").or_else(|_| tempfile::tempdir()).unwrap();
     let d = dir.path().to_path_buf();
     let replay = args.replay_case();
@@ -186,9 +196,22 @@ fn c16(args: &Args) -> ! {
         ("abstract", format!("unix:@{}", abstract_name)),
         ("tcp", format!("tcp:127.0.0.1:{}", port)),
     ];
+    // a stale socket file from an earlier run is in the way of both filesystem addresses (the server removes it)
+    for n in ["s1", "s2"] {
+        drop(std::os::unix::net::UnixListener::bind(d.join(n)));
+    }
     let mut servers = vec![];
-    for (_, a) in &addr_transports {
-        servers.push(spawn_service(a, "org.verif.a"));
+    for (n, a) in &addr_transports {
+        match try_spawn_service(a, "org.verif.a") {
+            Some(p) => servers.push(p),
+            None => {
+                let case = json!({"part": "transport", "transport": n, "ops": []});
+                rep.eval(Some(&case.to_string()));
+                if args.shard == 0 {
+                    rep.violation(&format!("C16/{}/server-not-reachable", n), &format!("a service told to listen on {} (with a stale socket file in place for filesystem paths) cannot be reached", a), case);
+                }
+            }
+        }
     }
     let svc = svc_exe();
     let mut transports: Vec<(String, String, String)> = addr_transports.iter().map(|(n, a)| (n.to_string(), "address".to_string(), a.clone())).collect();
@@ -310,7 +333,7 @@ fn c16(args: &Args) -> ! {
                             if *r != case {
                                 continue;
                             }
-                        } else if !args.mine(k) || (!args.thorough() && k % 3 != 0) {
+                        } else if !args.mine(k) {
                             continue;
                         }
                         rep.eval(Some(&case.to_string()));
@@ -471,6 +494,10 @@ fn c20(args: &Args) -> ! {
         json!({"s": "ä\"\\\n\t\u{1F600}\u{7f}", "": "empty key", "k\"": "quote key"}),
         json!({"min": i64::MIN, "max": u64::MAX, "big": 1e300, "negzero": -0.0, "small": 5e-324, "i": 0}),
         json!({"t": true, "f": false, "n": null, "arr": [true, false, null, "x", 1.5]}),
+        // replies larger than the client's 8 KiB read buffer, multi-byte characters at every alignment
+        json!({"big": format!("{}{}", "", "€ä\u{1F600}".repeat(2500))}),
+        json!({"big": format!("{}{}", "x", "€ä\u{1F600}".repeat(2500))}),
+        json!({"big": format!("{}{}", "xy", "€".repeat(7000))}),
     ];
     let replay = args.replay_case();
     let mut idx = 0u64;
